@@ -3,15 +3,15 @@
 # Confirms in a scratch worktree (outside /repo and /verif, removed afterwards): demo passes on the
 # pristine tree, fails with the patch, and the unedited test suite still passes with the patch.
 PROP=$1; K=$2; SRC=$3
-WT=/tmp/wt_confirm_$PROP_$K
+WT=/tmp/wt_confirm_${PROP}_$K
 OUT=/verif/seeded/$PROP-$K
 git -C /repo worktree add -q --detach $WT HEAD || exit 9
 cd $WT
-PYTHONPATH=$WT timeout 600 /venv/bin/python $SRC/demo.py > /tmp/confirm_demo_clean.log 2>&1; RC_CLEAN=$?
+PYTHONPATH=$WT timeout 600 /venv/bin/python $SRC/demo.py > /tmp/confirm_${PROP}_${K}_clean.log 2>&1; RC_CLEAN=$?
 if ! git apply $SRC/patch.diff; then echo "patch does not apply"; git -C /repo worktree remove --force $WT; exit 8; fi
-PYTHONPATH=$WT timeout 600 /venv/bin/python $SRC/demo.py > /tmp/confirm_demo_patched.log 2>&1; RC_PATCHED=$?
-PYTHONPATH=$WT timeout 3000 /venv/bin/python -m pytest -q -p no:cacheprovider -n 8 --timeout=900 > /tmp/confirm_tests.log 2>&1; RC_TESTS=$?
-TESTS=$(tail -1 /tmp/confirm_tests.log)
+PYTHONPATH=$WT timeout 600 /venv/bin/python $SRC/demo.py > /tmp/confirm_${PROP}_${K}_patched.log 2>&1; RC_PATCHED=$?
+PYTHONPATH=$WT timeout 3000 /venv/bin/python -m pytest -q -p no:cacheprovider -n 4 --timeout=900 > /tmp/confirm_${PROP}_${K}_tests.log 2>&1; RC_TESTS=$?
+TESTS=$(tail -1 /tmp/confirm_${PROP}_${K}_tests.log)
 cd /verif
 git -C /repo worktree remove --force $WT
 echo "$PROP-$K demo_clean=$RC_CLEAN demo_patched=$RC_PATCHED tests_rc=$RC_TESTS ($TESTS)"
